@@ -93,6 +93,10 @@ class _Canon(ast.NodeTransformer):
                 else:
                     gen = ast.GeneratorExp(elt=ast.Name(var, ast.Load()), generators=[ast.comprehension(target=target, iter=node.args[1], ifs=[lam.body], is_async=0)])
                 return ast.copy_location(gen, node)
+        if fname == "map" and len(node.args) == 2 and isinstance(node.args[0], (ast.Name, ast.Attribute)) and _plain(node.args[0]):
+            gen = ast.GeneratorExp(elt=ast.Call(func=node.args[0], args=[ast.Name("_m", ast.Load())], keywords=[]),
+                                   generators=[ast.comprehension(target=ast.Name("_m", ast.Store()), iter=node.args[1], ifs=[], is_async=0)])
+            return ast.fix_missing_locations(ast.copy_location(gen, node))
         if fname in ("list", "set") and len(node.args) == 1 and isinstance(node.args[0], ast.GeneratorExp):
             gen = node.args[0]
             new = (ast.ListComp if fname == "list" else ast.SetComp)(elt=gen.elt, generators=gen.generators)
@@ -225,11 +229,30 @@ def _expand_comprehensions(func: ast.AST) -> int:
     done = 0
     counter = [0]
 
+    loads: dict[str, list[ast.Name]] = {}
+    for n_ in ast.walk(func):
+        if isinstance(n_, ast.Name) and isinstance(n_.ctx, ast.Load):
+            loads.setdefault(n_.id, []).append(n_)
+    loop_stack: list[ast.AST] = []
+
+    def read_elsewhere(name: str, comp: ast.AST) -> bool:
+        """is the outer binding of `name` still needed after (or around, inside an enclosing loop) this comprehension?"""
+        inside = {id(x) for x in ast.walk(comp)}
+        end = getattr(comp, "end_lineno", None) or getattr(comp, "lineno", 0)
+        for ld in loads.get(name, []):
+            if id(ld) in inside:
+                continue
+            if getattr(ld, "lineno", 0) > end:
+                return True
+            if any(id(ld) in {id(x) for x in ast.walk(lp)} for lp in loop_stack):
+                return True
+        return False
+
     def fresh_names(comp: ast.AST) -> dict[str, str]:
         rename: dict[str, str] = {}
         for gen in comp.generators:  # type: ignore[attr-defined]
             for n in ast.walk(gen.target):
-                if isinstance(n, ast.Name) and n.id in bound_outside:
+                if isinstance(n, ast.Name) and n.id in bound_outside and read_elsewhere(n.id, comp):
                     counter[0] += 1
                     rename[n.id] = f"{n.id}__c{counter[0]}"  # the name is also used outside the comprehension: keep the scopes apart
         return rename
@@ -305,16 +328,76 @@ def _expand_comprehensions(func: ast.AST) -> int:
                 done += 1
                 i += len(new)
                 continue
+            is_loop = isinstance(stmt, (ast.For, ast.While))
+            if is_loop:
+                loop_stack.append(stmt)
             for fld in ("body", "orelse", "finalbody"):
                 sub_ = getattr(stmt, fld, None)
                 if isinstance(sub_, list) and sub_ and isinstance(sub_[0], ast.stmt):
                     walk_block(sub_)
             for h in getattr(stmt, "handlers", []) or []:
                 walk_block(h.body)
+            if is_loop:
+                loop_stack.pop()
             i += 1
 
     walk_block(func.body)  # type: ignore[attr-defined]
     return done
+
+
+def rename_comp_vars(tree: ast.AST) -> ast.AST:
+    """variables of comprehensions / generator expressions that remain expressions get positional names (_g0, _g1, ..
+    per outermost expression): `any(f(x) for x in xs)` and `any(f(y) for y in xs)` are the same condition"""
+
+    class R(ast.NodeTransformer):
+        def __init__(self) -> None:
+            self.env: list[dict[str, str]] = []
+            self.n = 0
+
+        def _comp(self, node: ast.AST) -> ast.AST:
+            top = not self.env
+            if top:
+                self.n = 0
+            env: dict[str, str] = {}
+            for gen in node.generators:  # type: ignore[attr-defined]
+                for t in ast.walk(gen.target):
+                    if isinstance(t, ast.Name) and t.id not in env:
+                        env[t.id] = f"_g{self.n}"
+                        self.n += 1
+            # the first iterable is evaluated outside the comprehension's scope
+            first = node.generators[0]  # type: ignore[attr-defined]
+            first.iter = self.visit(first.iter)
+            self.env.append(env)
+            first.target = self.visit(first.target)
+            first.ifs = [self.visit(x) for x in first.ifs]
+            for gen in node.generators[1:]:  # type: ignore[attr-defined]
+                gen.target = self.visit(gen.target)
+                gen.iter = self.visit(gen.iter)
+                gen.ifs = [self.visit(x) for x in gen.ifs]
+            if isinstance(node, ast.DictComp):
+                node.key = self.visit(node.key)
+                node.value = self.visit(node.value)
+            else:
+                node.elt = self.visit(node.elt)  # type: ignore[attr-defined]
+            self.env.pop()
+            return node
+
+        visit_ListComp = visit_SetComp = visit_DictComp = visit_GeneratorExp = _comp  # type: ignore[assignment]
+
+        def visit_Lambda(self, node: ast.Lambda) -> ast.AST:
+            shadow = {a.arg: a.arg for a in node.args.posonlyargs + node.args.args + node.args.kwonlyargs}
+            self.env.append(shadow)
+            self.generic_visit(node)
+            self.env.pop()
+            return node
+
+        def visit_Name(self, node: ast.Name) -> ast.AST:
+            for env in reversed(self.env):
+                if node.id in env:
+                    return ast.copy_location(ast.Name(env[node.id], node.ctx), node)
+            return node
+
+    return R().visit(tree)
 
 
 def fold_accumulator(name: str, init: ast.expr, loop: ast.stmt) -> Optional[ast.expr]:
@@ -427,6 +510,7 @@ def normal_form(tree: ast.Module) -> ast.Module:
         if isinstance(node, (ast.FunctionDef, ast.AsyncFunctionDef)):
             done += _inline_temps(node)
     _shape_ifs(tree)
+    rename_comp_vars(tree)
     tree.ngosa_temps_inlined = done  # type: ignore[attr-defined]
     return tree
 
@@ -439,12 +523,15 @@ def sort_operands(tree: ast.AST) -> ast.AST:
 def canon_expr(text: str) -> str:
     """normal form of a condition given as text (for tables keyed by condition text)"""
     tree = ast.parse(text, mode="eval")
-    return ast.unparse(_Canon().visit(tree))
+    return ast.unparse(canon_inplace(tree))  # type: ignore[arg-type]
 
 
 def canon_inplace(node: ast.expr) -> ast.expr:
-    return _Canon().visit(node)  # type: ignore[no-any-return]
+    """structure first, then positional names for comprehension variables, then the (name dependent) operand order"""
+    node = _Canon(sort_operands=False).visit(node)
+    node = rename_comp_vars(node)
+    return _Canon(sort_operands=True, structure=False).visit(node)  # type: ignore[no-any-return]
 
 
 def canon_node(node: ast.AST) -> ast.AST:
-    return _Canon().visit(copy.deepcopy(node))
+    return canon_inplace(copy.deepcopy(node))  # type: ignore[arg-type]
